@@ -35,7 +35,14 @@ func zzBuildPool() [][]byte {
 	return [][]byte{{0x00, 0x00}, {0x00, 0x01}, {0x80, 0x00}, {0x00, 0x80}, {0x01, 0x00}, {0xff, 0xff}}
 }
 
-const zzBuildKeyLen = 2
+// zzBuildKeyLen: 2, or 3 with the tier parameter KL=3 (set by zzPoolOf before the trie is created).
+var zzBuildKeyLen = 2
+
+// zzBuildPool3: 3-byte keys; the first three share their first 16 bits, so that a THIRD layer of
+// subtrees exists below them (bins chosen by the third key byte).
+func zzBuildPool3() [][]byte {
+	return [][]byte{{0xab, 0xcd, 0x01}, {0xab, 0xcd, 0x80}, {0xab, 0xcd, 0xcd}, {0xab, 0x00, 0x00}, {0x00, 0x00, 0x00}, {0xff, 0xff, 0xff}}
+}
 
 // ---- in-memory model of DBReadWriter: association list, newest entry last ----
 
@@ -131,7 +138,14 @@ func (z *zzValues) fresh() []byte {
 	return v
 }
 
-func zzPoolOf(t *zzT) [][]byte { return zzBuildPool()[:t.Param("P", 4)] }
+func zzPoolOf(t *zzT) [][]byte {
+	if t.Param("KL", 2) == 3 {
+		zzBuildKeyLen = 3
+		return zzBuildPool3()[:t.Param("P", 4)]
+	}
+	zzBuildKeyLen = 2
+	return zzBuildPool()[:t.Param("P", 4)]
+}
 
 func zzNewBuild(t *zzT, vals *zzValues) *zzBuild {
 	pool := zzPoolOf(t)
@@ -660,3 +674,12 @@ func zzH_C10_prove_verify(t *zzT) {
 	}
 	t.Reach("end")
 }
+
+// C10.g with THREE layers of subtrees: 3-byte keys, three of which share their first 16 bits (pool
+// zzBuildPool3), so that proofs have to descend through a lower subtree of a lower subtree — bins there
+// are chosen by the third key byte. Same obligations as zzH_C10_prove_verify.
+//
+//zz:opt loop=400 require=end,present,absent sched=0 gor=4000 hashdepth=96
+//zz:quick KL=3 P=3 K=1 Q=1 ORDERED=0 TAG=1 budget=300s
+//zz:thorough KL=3 P=4 K=1 Q=2 ORDERED=0 TAG=1 budget=3600s
+func zzH_C10_prove_verify_three_layers(t *zzT) { zzH_C10_prove_verify(t) }
